@@ -14,16 +14,23 @@ from __future__ import annotations
 import time
 from fractions import Fraction
 
+from vt import sched_guard as guard
 from vt.common import cbool, cboollist, clist, cnat, coq_eval_shards, cz, czraw
 from vt.props import c07_ffsp as G
 from vt.props import c07_fjsp as F
 from vt.props import c08 as S
 
 CONCRETE = {4: "reward-differs-from-objective", 8: "dead-end(empty-mask)", 9: "finished-row-became-unfinished",
-            10: "step-bound-exceeded"}
-DISAGREE = {1: "mask (emptiness) differs from the model", 2: "action taken is outside the model mask", 3: "done differs from the model",
+            10: "step-bound-exceeded", 15: "get_reward-answers-on-unfinished-batch", 16: "pre_step-accepts-running-batch"}
+DISAGREE = {17: "a step reward is not minus the change of the maximal lower bound (stepwise_reward=True)",
+            18: "the final lower bound is not the makespan (stepwise_reward=True)", 19: "malformed stepwise record",
+            32: "the implementation's guard raised although the model's guard lets the batch through",
+            22: "busy_until differs", 23: "next_op differs", 24: "job_in_process differs", 25: "job_done differs", 26: "op_scheduled differs",
+            27: "start_times differ (per step)", 28: "finish_times differ (per step)",
+            1: "mask (emptiness) differs from the model", 2: "action taken is outside the model mask", 3: "done differs from the model",
             5: "reward differs from the model", 7: "model step = None (real code did not raise)", 12: "episode not finished",
-            20: "instance outside the documented format (wfb)", 21: "the model's own schedule is rejected by the specification",
+            20: "instance outside the documented format (wfb)",
+            21: "the model's own schedule is rejected by the specification (C03) / time differs from the model (C04 bookkeeping keys)",
             30: "batched bookkeeping differs from the batched model", 31: "batched model raises / view narrower than the row",
             11: "final start_times differ", 13: "final ma_assignment differs", 14: "final reward differs from the model",
             10: "schedule differs"}
@@ -31,9 +38,7 @@ DISAGREE = {1: "mask (emptiness) differs from the model", 2: "action taken is ou
 HDR_FJSP = ("From Coq Require Import List ZArith Bool.\n"
             "From RL4CO Require Import Spec.Schedule Env.FJSP Harness.HC07_fjsp Harness.HC0234_fjsp.\n"
             "Import ListNotations.\n")
-HDR_FFSP = ("From Coq Require Import List ZArith Bool.\n"
-            "From RL4CO Require Import Env.FFSP Env.SMTWTP Harness.HC07_ffsp Harness.HC0234_ffsp.\n"
-            "Import ListNotations.\n")
+HDR_FFSP = G.HEADER_GUARD
 HDR_GRAPH = ("From Coq Require Import List ZArith Bool.\n"
              "From RL4CO Require Import Env.Selection Env.FLP Env.MCP Env.DPP Harness.HC08 Harness.HC0234_graph.\n"
              "Import ListNotations.\nOpen Scope Z_scope.\n")
@@ -88,12 +93,15 @@ class Collector:
         ctx = self.ctx
         for env, (c, m) in sorted(self.first_dis.items()):
             path = ctx.write_replay(dict(m, code=c, property=self.pid, what="model/implementation disagreement: " + DISAGREE.get(c % 1000, "tag %d" % (c % 1000))),
-                                    tag="corr-%s-%s" % (self.unit, env))
+                                    tag="corr-%s-%s" % (self.unit, "".join(ch if ch.isalnum() or ch in "-_" else "_" for ch in env)))
             ctx.broken.append("correspondence %s/%s/%s: model and implementation disagree; first: code %d (step %d: %s), case file %s" % (
                 self.pid, self.unit, env, c, c // 1000, DISAGREE.get(c % 1000, "?"), path))
         for sig, (_, rep) in sorted(self.best.items()):
             rep = dict(rep)
-            rep.setdefault("unit", self.unit)
+            # `unit` routes ./check --replay to vt/props/<pid>_<unit>.py; the env-level unit of the record (ffsp / smtwtp / fjsp) is kept
+            if rep.get("unit") not in (None, self.unit.split("-")[0]):
+                rep["env_unit"] = rep["unit"]
+            rep["unit"] = self.unit.split("-")[0]
             if ctx.failure(sig, rep, tag=self.unit):
                 self.n_concrete += 1
         return self.n_concrete
@@ -110,9 +118,11 @@ def coq_codes(ctx, prefix, header, case_type, fn, cases, shard=60):
 
 
 # =================================================================================================== FJSP / JSSP
-def fjsp_env(kind, mno, gp):
+def fjsp_env(kind, mno, gp, stepwise=False):
     from rl4co.envs.scheduling.fjsp.env import FJSPEnv
     from rl4co.envs.scheduling.jssp.env import JSSPEnv
+    if stepwise:
+        return {"fjsp": FJSPEnv, "jssp": JSSPEnv}[kind](generator_params=dict(gp), mask_no_ops=mno, stepwise_reward=True)
     return {"fjsp": FJSPEnv, "jssp": JSSPEnv}[kind](generator_params=dict(gp), mask_no_ops=mno)
 
 
@@ -176,82 +186,123 @@ def fjsp_bound(inst, mno):
     return ops if mno else 2 * ops
 
 
-def fjsp_rollout(torch, env, td0, rng, plans, policies, extra_pad, max_steps=400):
+def fjsp_rollout(torch, env, td0, rng, plans, policies, extra_pad, max_steps=400, kind="fjsp", probe_reward=False, keys=False):
     """Drives one batch.  plans[b] = list of actions row b must take (while they last), then policies[b].
-    Returns dict(rows=[...], actions=[[...per step...]], crash=None|{...}, insts=[...], rewards=[...]|None)."""
+    Returns dict(rows=[...], actions=[[...per step...]], crash=None|{...}, insts=[...], rewards=[...]|None).
+    Every env call runs under the wall-clock guard (vt/sched_guard.py); crash["where"] == "timeout" when one did not return.
+    probe_reward: the first time a state with done = mixed (and the first time one with no row done) is met, env.get_reward is
+    called on a clone and what it did is recorded in out["reward_probes"] (its guard `assert td["done"].all()` must refuse).
+    keys: record the bookkeeping keys of every state (F._keys_of) in rows[b]["keys"]."""
     B = td0.batch_size[0]
     insts = [F._inst_of_td(td0, b) for b in range(B)]
-    out = {"insts": insts, "actions": [], "crash": None, "rewards": None, "finals": None}
+    out = {"insts": insts, "actions": [], "crash": None, "rewards": None, "finals": None, "reward_probes": []}
     try:
-        td = env.reset(td0.clone())
+        td = guard.call(kind, "reset", env.reset, td0.clone())
+    except guard.EnvTimeout as e:
+        out["crash"] = {"where": "timeout", "call": e.what, "error": str(e)}
+        out["rows"] = []
+        return out
     except Exception as e:  # noqa: BLE001
         out["crash"] = {"where": "reset", "error": repr(e)[:300]}
         out["rows"] = []
         return out
     rows = [{"mask0": [bool(x) for x in td["action_mask"][b].tolist()], "steps": [], "first_done": None, "plan_dev": None,
-             "choice": False} for b in range(B)]
+             "choice": False, "keys": [F._keys_of(td, b)] if keys else None} for b in range(B)]
     out["rows"] = rows
     out["td_reset"] = td
     pads = 0
     k = 0
-    while True:
-        if bool(td["done"].all()):
-            if pads >= extra_pad:
+    probed = set()
+
+    def probe():
+        dn = [bool(x) for x in td["done"].reshape(-1).tolist()]
+        pat = "all" if all(dn) else ("none" if not any(dn) else "mixed")
+        if not probe_reward or pat == "all" or pat in probed:
+            return
+        probed.add(pat)
+        rec = {"step": k, "done": dn, "pattern": pat, "raised": None, "values": None}
+        try:
+            v = guard.call(kind, "get_reward", env.get_reward, td.clone(), None)
+            rec["raised"] = False
+            rec["values"] = [float(x) for x in v.reshape(-1).tolist()]
+        except guard.EnvTimeout:
+            raise
+        except Exception as e:  # noqa: BLE001
+            rec["raised"] = True
+            rec["error"] = "%s: %s" % (type(e).__name__, str(e)[:120])
+        out["reward_probes"].append(rec)
+
+    try:
+        while True:
+            if bool(td["done"].all()):
+                if pads >= extra_pad:
+                    break
+                pads += 1
+            if k >= max_steps:
+                out["crash"] = {"where": "loop", "error": "episode longer than %d steps" % max_steps, "step": k}
                 break
-            pads += 1
-        if k >= max_steps:
-            out["crash"] = {"where": "loop", "error": "episode longer than %d steps" % max_steps, "step": k}
-            break
-        acts = []
-        for b in range(B):
-            mrow = [bool(x) for x in td["action_mask"][b].tolist()]
-            plan = plans[b] if plans else None
-            if plan is not None and k < len(plan):
-                a = plan[k]
-                if not (0 <= a < len(mrow) and mrow[a]):
-                    rows[b]["plan_dev"] = k if rows[b]["plan_dev"] is None else rows[b]["plan_dev"]
-                    a = None
-            else:
-                a = None
-            if a is None:
-                a = F._choose(torch, mrow, bool(td["done"][b]), policies[b % len(policies)], rng)
-            if a is None:
-                out["crash"] = {"where": "mask", "error": "empty mask row", "row": b, "step": k}
-                a = 0
-            if sum(mrow) >= 2:
-                rows[b]["choice"] = True
-            acts.append(a)
-        if out["crash"]:
-            break
-        out["actions"].append(list(acts))
-        td.set("action", torch.tensor(acts, dtype=torch.int64))
-        try:
-            td = env.step(td)["next"]
-        except Exception as e:  # noqa: BLE001
-            out["crash"] = {"where": "step", "error": repr(e)[:300], "step": k}
-            break
-        k += 1
-        for b in range(B):
-            d = bool(td["done"][b])
-            rows[b]["steps"].append((acts[b], [bool(x) for x in td["action_mask"][b].tolist()], d))
-            if d and rows[b]["first_done"] is None:
-                rows[b]["first_done"] = k
-    if out["crash"] is None:
-        try:
-            rew = env.get_reward(td, None)
-            out["rewards_raw"] = [float(x) for x in rew.reshape(-1).tolist()]
-            out["rewards"] = [F._ints(rew[b])[0] for b in range(B)]
-            fin = []
+            probe()
+            acts = []
             for b in range(B):
-                N, M = len(insts[b]["pad"]), len(insts[b]["proc"])
-                a = F._ints(td["ma_assignment"][b])
-                fin.append({"start": F._ints(td["start_times"][b]), "finish": F._ints(td["finish_times"][b]),
-                            "assign": [[bool(x) for x in a[m * N:(m + 1) * N]] for m in range(M)], "reward": out["rewards"][b]})
-            out["finals"] = fin
-        except (F.NotIntegral, OverflowError, ValueError):      # non-integral / infinite / nan reward: no exact comparison possible
-            out["rewards"] = None
-        except Exception as e:  # noqa: BLE001
-            out["crash"] = {"where": "get_reward", "error": repr(e)[:300]}
+                mrow = [bool(x) for x in td["action_mask"][b].tolist()]
+                plan = plans[b] if plans else None
+                if plan is not None and k < len(plan):
+                    a = plan[k]
+                    if not (0 <= a < len(mrow) and mrow[a]):
+                        rows[b]["plan_dev"] = k if rows[b]["plan_dev"] is None else rows[b]["plan_dev"]
+                        a = None
+                else:
+                    a = None
+                if a is None:
+                    a = F._choose(torch, mrow, bool(td["done"][b]), policies[b % len(policies)], rng)
+                if a is None:
+                    out["crash"] = {"where": "mask", "error": "empty mask row", "row": b, "step": k}
+                    a = 0
+                if sum(mrow) >= 2:
+                    rows[b]["choice"] = True
+                acts.append(a)
+            if out["crash"]:
+                break
+            out["actions"].append(list(acts))
+            td.set("action", torch.tensor(acts, dtype=torch.int64))
+            try:
+                td = guard.call(kind, "step", env.step, td)["next"]
+            except guard.EnvTimeout:
+                raise
+            except Exception as e:  # noqa: BLE001
+                out["crash"] = {"where": "step", "error": repr(e)[:300], "step": k}
+                break
+            k += 1
+            for b in range(B):
+                d = bool(td["done"][b])
+                rows[b]["steps"].append((acts[b], [bool(x) for x in td["action_mask"][b].tolist()], d))
+                if d and rows[b]["first_done"] is None:
+                    rows[b]["first_done"] = k
+                if rows[b]["keys"] is not None:
+                    try:
+                        rows[b]["keys"].append(F._keys_of(td, b))
+                    except F.NotIntegral:
+                        rows[b]["keys"] = None
+        if out["crash"] is None:
+            try:
+                rew = guard.call(kind, "get_reward", env.get_reward, td, None)
+                out["rewards_raw"] = [float(x) for x in rew.reshape(-1).tolist()]
+                out["rewards"] = [F._ints(rew[b])[0] for b in range(B)]
+                fin = []
+                for b in range(B):
+                    N, M = len(insts[b]["pad"]), len(insts[b]["proc"])
+                    a = F._ints(td["ma_assignment"][b])
+                    fin.append({"start": F._ints(td["start_times"][b]), "finish": F._ints(td["finish_times"][b]),
+                                "assign": [[bool(x) for x in a[m * N:(m + 1) * N]] for m in range(M)], "reward": out["rewards"][b]})
+                out["finals"] = fin
+            except (F.NotIntegral, OverflowError, ValueError):      # non-integral / infinite / nan reward: no exact comparison possible
+                out["rewards"] = None
+            except guard.EnvTimeout:
+                raise
+            except Exception as e:  # noqa: BLE001
+                out["crash"] = {"where": "get_reward", "error": repr(e)[:300]}
+    except guard.EnvTimeout as e:      # the interrupted state is abandoned
+        out["crash"] = {"where": "timeout", "call": e.what, "error": str(e), "step": k}
     return out
 
 
@@ -264,7 +315,7 @@ def fjsp_replay_obj(kind, mno, out, row, extra=None):
 
 
 def fjsp_case(kind, mno, inst_name, row, final=None):
-    case = {"jssp": kind == "jssp", "mno": mno, "mask0": row["mask0"], "steps": row["steps"], "final": final}
+    case = {"jssp": kind == "jssp", "mno": mno, "mask0": row["mask0"], "steps": row["steps"], "final": final, "keys": row.get("keys")}
     return F._case_coq(case, inst_name)
 
 
@@ -276,6 +327,10 @@ def fjsp_py_c02(kind, mno, out, coll, want_bound=True):
     """the property itself on the implementation's observables (no model): returns True when the batch is usable"""
     if out["crash"]:
         c = out["crash"]
+        if c["where"] == "timeout":      # C02's "episodes terminate": an env call did not return; instance + actions are the replay
+            coll.fail(guard.signature(kind, c["call"]), fjsp_replay_obj(kind, mno, out, 0, {
+                "what": c["error"], "hangs_in": "env.%s, after the recorded actions_per_step (the last list is the step that hangs)" % c["call"]}))
+            return False
         mech = {"mask": "dead-end(empty-mask)", "step": "crash-on-offered-action", "reset": "reset-raises",
                 "loop": "episode-does-not-terminate", "get_reward": "get_reward-raises"}[c["where"]]
         coll.fail("%s: %s" % (kind, mech), fjsp_replay_obj(kind, mno, out, c.get("row", 0), {"what": mech}))
@@ -294,26 +349,160 @@ def fjsp_py_c02(kind, mno, out, coll, want_bound=True):
     return True
 
 
+# ---- FJSPEnv._get_reward on a batch that is not finished (its guard `assert td["done"].all()`; model SchedBatch.b_reward)
+REWARD_GUARD_SIG = "%s: get_reward-answers-on-unfinished-batch"
+
+
+def fjsp_reward_guard_evaluate(ctx, outs, coll, prefix, count=True):
+    """outs = [(kind, mno, out)] with out["reward_probes"] (fjsp_rollout(probe_reward=True)).  Python: the implementation's own
+    done flags say a row is unfinished and env.get_reward answered anyway -> concrete failure.  Coq: Harness/HC0234_fjsp.v
+    check_reward_guard runs the row model on every row's actions up to the probe and compares `raised` with b_reward = None."""
+    insts, cases, metas = [], [], []
+    for kind, mno, out in outs:
+        if out["crash"]:
+            continue
+        for p in out.get("reward_probes", []):
+            k = p["step"]
+            rep = fjsp_replay_obj(kind, mno, dict(out, actions=out["actions"][:k]), p["done"].index(False), {
+                "probe": "env.get_reward(td, None) after %d steps" % k, "probe_step": k, "done_flags": p["done"],
+                "get_reward_raised": p["raised"], "get_reward_returned": p["values"],
+                "expected": "AssertionError (the guard `assert td['done'].all()`): a reward before every row is finished is no objective value"})
+            if count:
+                ctx.count("%s_get_reward_probes_done_%s_%s" % (kind, p["pattern"], "raised" if p["raised"] else "answered"))
+            if not p["raised"]:
+                coll.fail(REWARD_GUARD_SIG % kind, dict(rep, what="env.get_reward answered %r although done = %r" % (p["values"], p["done"])))
+            rows = []
+            for b, row in enumerate(out["rows"]):
+                insts.append(out["insts"][b])
+                rows.append("(I%d, %s)" % (len(insts) - 1, clist(cnat(a) for a, _, _ in row["steps"][:k])))
+            if p["raised"]:
+                obs = "None"
+            else:
+                vals = [int(v) if v == v and abs(v) < 1e15 and float(v) == int(v) else 0 for v in p["values"]]
+                obs = "(Some %s)" % clist(cz(v) for v in vals)
+            cases.append("(%s, %s, %s, %s)" % (cbool(kind == "jssp"), cbool(mno), clist(rows), obs))
+            metas.append((kind, rep))
+    if not cases:
+        return 0
+    codes = coq_codes(ctx, prefix, fjsp_header(insts), "rg_case", "check_reward_guard", cases, shard=40)
+    if codes is not None:
+        for kind in ("fjsp", "jssp"):
+            sel = [(c, m[1]) for c, m in zip(codes, metas) if m[0] == kind]
+            coll.codes(kind, [c for c, _ in sel], [m for _, m in sel], "guard")
+    return len(cases)
+
+
+def fjsp_stepwise_evaluate(ctx, outs, coll, prefix, count=True):
+    """outs = [(kind, mno, out)] of F.stepwise_episode.  Python: the telescoping identity on the implementation's own numbers
+    (L0 - sum r = -sparse reward).  Coq: HC07_fjsp.check_stepwise (= check_C03_stepwise) against the makespan of the schedule
+    the row model induces from (instance, actions)."""
+    insts, cases, metas = [], [], []
+    for kind, mno, out in outs:
+        env_sig = "%s/stepwise_reward=True" % kind
+        if out["crash"]:
+            c = out["crash"]
+            sig = (guard.signature(kind, c["call"]) if c["where"] == "timeout" else
+                   "%s: %s" % (kind, {"mask": "dead-end(empty-mask)", "step": "crash-on-offered-action", "reset": "reset-raises",
+                                      "loop": "episode-does-not-terminate", "get_reward": "get_reward-raises"}[c["where"]]))
+            coll.fail(sig, F.stepwise_replay_obj(kind, mno, out, c.get("row", 0), "stepwise_reward=True: " + c["error"]))
+            continue
+        for b, row in enumerate(out["rows"]):
+            why = F.stepwise_py_check(row)
+            if why is not None:
+                coll.fail("%s: %s" % (env_sig, CONCRETE[4]), F.stepwise_replay_obj(kind, mno, out, b, why))
+            if F.stepwise_scale_tol(row) is None or row["sparse"] is None:
+                continue
+            insts.append(out["insts"][b])
+            cases.append(F.stepwise_term(kind, mno, "I%d" % (len(insts) - 1), row))
+            metas.append((env_sig, F.stepwise_replay_obj(kind, mno, out, b, "")))
+            if count:
+                ctx.seen({"sw": True, "i": out["insts"][b], "a": row["acts"], "k": kind, "m": mno}, nontrivial=len(row["acts"]) >= 2 and row["choice"])
+                ctx.count("c03_%s_stepwise_rows" % kind)
+                ctx.count("c03_%s_stepwise_rows_%s" % (kind, "exact_dyadic" if F.stepwise_scale_tol(row)[1] == 0 else "with_float32_rounding_allowance"))
+                ctx.count("c03_%s_stepwise_steps_with_nonzero_reward" % kind, sum(1 for v in row["r"] if v != 0))
+                ctx.count("c03_%s_stepwise_padding_steps_after_done" % kind, len(row["r"]) - (row["first_done"] or len(row["r"])))
+    if not cases:
+        return 0
+    codes = coq_codes(ctx, prefix, fjsp_header(insts), "sw_case", "check_C03_stepwise", cases, shard=40)
+    if codes is not None:
+        for env_sig in sorted(set(m[0] for m in metas)):
+            sel = [(c, m[1]) for c, m in zip(codes, metas) if m[0] == env_sig]
+            coll.codes(env_sig, [c for c, _ in sel], [m for _, m in sel], "c03")
+    return len(cases)
+
+
+def stepwise_streams(ctx, rng, torch, scale, prefix):
+    """FJSPEnv / JSSPEnv(stepwise_reward=True), mask_no_ops on/off: mixed batches (unequal op counts, one slowed-down batch-mate,
+    a walk policy per row, 0..2 padding steps), one long-horizon batch per configuration.  Returns [(kind, mno, out)]."""
+    pols = ["random", "wait", "nowait", "first", "last"]
+    res = []
+    for kind in ("fjsp", "jssp"):
+        for mno in (True, False):
+            for rep in range(scale + 1):
+                if guard.timed_out(kind):
+                    break
+                gp = fjsp_long_params(rng, kind) if rep == scale else fjsp_gen_params(rng, kind, big=scale > 2)
+                if rep != scale and kind == "fjsp" and rep % 2 == 1:
+                    gp["num_machines"] = 4       # 1, 2 or 4 eligible machines are exact means; 3 exercises the rounding allowance
+                torch.manual_seed(rng.randrange(2 ** 31))
+                env = fjsp_env(kind, mno, gp, stepwise=True)
+                B = rng.randint(2, 4)
+                td0 = env.generator(batch_size=[B])
+                if B > 1 and rng.random() < 0.7:
+                    td0["proc_times"][B - 1] = td0["proc_times"][B - 1] * 3
+                try:
+                    out = F.stepwise_episode(torch, kind, env, td0, [rng.choice(pols) for _ in range(B)], rng, extra_pad=rng.randint(0, 2))
+                except F.NotIntegral:
+                    continue
+                ctx.count("%s_%s_stepwise_batches_%s" % (prefix, kind, "mask_no_ops" if mno else "waits_allowed"))
+                res.append((kind, mno, out))
+            # the hand-built rows finishing exactly at / far beyond the library's "not scheduled yet" marker 9999
+            if not guard.timed_out(kind):
+                env = fjsp_env(kind, mno, {"num_jobs": 2, "num_machines": 2}, stepwise=True)
+                out = F.stepwise_episode(torch, kind, env, fjsp_td(torch, fjsp_sentinel_rows()), [rng.choice(pols) for _ in range(3)], rng, extra_pad=1)
+                ctx.count("%s_%s_stepwise_batches_with_finish_times_at_and_beyond_9999" % (prefix, kind))
+                res.append((kind, mno, out))
+    return res
+
+
 def fjsp_replay(obj):
     import torch
+    if obj.get("stepwise_reward"):
+        return F.stepwise_replay(obj)
     kind = "jssp" if obj["env"] == "JSSPEnv" else "fjsp"
     insts = obj["instances"]
     env = fjsp_env(kind, obj["mask_no_ops"], {"num_jobs": len(insts[0]["start"]), "num_machines": len(insts[0]["proc"])})
-    td = env.reset(fjsp_td(torch, insts))
     b = obj.get("row", 0)
     print("signature:", obj.get("signature"))
     print("row", b, "instance:", insts[b])
-    print("mask after reset:", [int(x) for x in td["action_mask"][b].tolist()])
-    for k, acts in enumerate(obj.get("actions_per_step", []), 1):
-        td.set("action", torch.tensor(acts, dtype=torch.int64))
-        td = env.step(td)["next"]
-        print("step %d actions %s -> row %d mask %s done %s" % (k, acts, b, [int(x) for x in td["action_mask"][b].tolist()], bool(td["done"][b])))
-    if bool(td["done"].all()):
+    k = 0
+    try:
+        td = guard.call(kind, "reset", env.reset, fjsp_td(torch, insts))
+        print("mask after reset:", [int(x) for x in td["action_mask"][b].tolist()])
+        for k, acts in enumerate(obj.get("actions_per_step", []), 1):
+            td.set("action", torch.tensor(acts, dtype=torch.int64))
+            td = guard.call(kind, "step", env.step, td)["next"]
+            print("step %d actions %s -> row %d mask %s done %s" % (k, acts, b, [int(x) for x in td["action_mask"][b].tolist()], bool(td["done"][b])))
+    except guard.EnvTimeout as e:
+        print("HANG reproduced: %s (in step %d of the recorded actions)" % (e, k + 1 if obj.get("actions_per_step") else 0))
+        return 1
+    rc = 0
+    if "probe_step" in obj:
+        dn = [bool(x) for x in td["done"].reshape(-1).tolist()]
+        try:
+            v = env.get_reward(td.clone(), None)
+            print("env.get_reward(td, None) with done = %s answered now: %s   (recorded: raised=%s, returned=%s)" % (
+                dn, v.reshape(-1).tolist(), obj.get("get_reward_raised"), obj.get("get_reward_returned")))
+            rc = 0 if all(dn) else 1
+        except Exception as e:  # noqa: BLE001
+            print("env.get_reward(td, None) with done = %s raised now: %s: %s   (recorded: raised=%s)" % (
+                dn, type(e).__name__, str(e)[:100], obj.get("get_reward_raised")))
+    elif bool(td["done"].all()):
         print("reward now:", env.get_reward(td, None).tolist())
     for key in ("expected", "observed", "solo", "batched", "what"):
         if key in obj:
             print(key, ":", obj[key])
-    return 0
+    return rc
 
 
 # =================================================================================================== FFSP / SMTWTP
@@ -332,6 +521,9 @@ def ffsp_py_c02(recs, coll):
     for rec in recs:
         if rec.get("crashed"):
             msg = rec["crashed"]
+            if rec.get("timeout"):      # C02's "episodes terminate": env.step / reset did not return (vt/sched_guard.py)
+                coll.fail(guard.signature("ffsp", rec["timeout"]), G.ffsp_replay_obj(rec, msg, -1))
+                continue
             mech = ("dead-end(empty-mask)" if msg.startswith("empty mask") else
                     "episode-does-not-terminate" if msg.startswith("episode longer") else "crash-on-offered-action")
             coll.fail("ffsp: %s" % mech, G.ffsp_replay_obj(rec, msg, -1))
@@ -398,6 +590,9 @@ def smtwtp_py_c02(recs, coll):
     ok = []
     for rec in recs:
         bad = False
+        if rec["crashed"] and rec.get("timeout"):
+            coll.fail(guard.signature("smtwtp", rec["timeout"]), G.smtwtp_replay_obj(rec, rec["crashed"], -1))
+            continue
         if rec["crashed"]:
             coll.fail("smtwtp: dead-end(empty-mask)", G.smtwtp_replay_obj(rec, rec["crashed"], -1))
             bad = True
@@ -594,14 +789,20 @@ def graph_replay(obj):
 
 def replay(obj):
     k = obj.get("kind")
-    if k == "fjsp_batch":
+    if k in ("fjsp_batch", "fjsp_stepwise"):
         return fjsp_replay(obj)
+    if k == "ffsp_pre_step_probe":
+        return G.replay(obj)
     if k == "graph_batch":
         return graph_replay(obj)
     if k == "mixed_quota":
         return S.replay(obj)
-    if obj.get("unit") in ("ffsp", "smtwtp"):
-        return G.replay(obj)
+    if k in ("c05_fjsp", "c05_ffsp", "c05_smtwtp"):
+        from vt.props import c05_sched
+        return c05_sched.replay(obj)
+    eu = obj.get("env_unit") or obj.get("unit")
+    if eu in ("ffsp", "smtwtp"):
+        return G.replay(dict(obj, unit=eu))
     import json
     print(json.dumps(obj, indent=1)[:3000])
     return 0
@@ -613,7 +814,7 @@ def sched_streams(ctx, rng, torch, scale, coll, prefix):
     batch-mate per batch), a different walk policy per row, 0..2 further padding steps after the last row finished;
     finished rows receive random admitted (= their inert) actions meanwhile.
     Returns dict(fjsp=[(kind, mno, out)], ffsp=[rec], smtwtp=[rec]); the python-level C02 checks have run (coll)."""
-    res = {"fjsp": [], "ffsp": [], "smtwtp": []}
+    res = {"fjsp": [], "ffsp": [], "smtwtp": [], "ffsp_batches": [], "fjsp_all": []}
     pols = ["random", "wait", "nowait", "first", "last"]
     # ---- FJSP / JSSP
     for kind in ("fjsp", "jssp"):
@@ -626,7 +827,11 @@ def sched_streams(ctx, rng, torch, scale, coll, prefix):
                 td0 = env.generator(batch_size=[B])
                 if rng.random() < 0.7:       # a batch-mate that needs much longer: the others idle on padding meanwhile
                     td0["proc_times"][B - 1] = td0["proc_times"][B - 1] * 3
-                out = fjsp_rollout(torch, env, td0, rng, None, [rng.choice(pols) for _ in range(B)], rng.randint(0, 2))
+                if guard.timed_out(kind):     # an env call of this env did not return (reported): the env is abandoned
+                    continue
+                out = fjsp_rollout(torch, env, td0, rng, None, [rng.choice(pols) for _ in range(B)], rng.randint(0, 2), kind=kind,
+                                   probe_reward=True)
+                res["fjsp_all"].append((kind, mno, out))
                 ok = fjsp_py_c02(kind, mno, out, coll)
                 ctx.count("%s_%s_batches_%s" % (prefix, kind, "mask_no_ops" if mno else "waits_allowed"))
                 if ok:
@@ -653,7 +858,11 @@ def sched_streams(ctx, rng, torch, scale, coll, prefix):
                 rng.shuffle(rows)
                 batches = [rows, fjsp_sentinel_rows()]
                 for brow in batches:
-                    out = fjsp_rollout(torch, env, fjsp_td(torch, brow), rng, None, [rng.choice(pols) for _ in brow], rng.randint(0, 2))
+                    if guard.timed_out(kind):
+                        continue
+                    out = fjsp_rollout(torch, env, fjsp_td(torch, brow), rng, None, [rng.choice(pols) for _ in brow], rng.randint(0, 2),
+                                       kind=kind, probe_reward=True)
+                    res["fjsp_all"].append((kind, mno, out))
                     ctx.count("%s_%s_long_horizon_batches" % (prefix, kind))
                     if fjsp_py_c02(kind, mno, out, coll):
                         if out["finals"]:
@@ -673,7 +882,11 @@ def sched_streams(ctx, rng, torch, scale, coll, prefix):
             envs[key] = ffsp_env(1, S_, 2, True)
         far = [[rng.randint(1, 4) if k % 2 == 0 else rng.choice([50000, 400000, 900000]) for k in range(2 * S_)]]
         longrow = [[rng.randint(60, 150) if k % 2 == 0 else 2 for k in range(2 * S_)]]
-        recs = G.ffsp_episode(envs[key], [far, longrow, G._rand_rt(rng, 1, 2 * S_, 1, 4)], ["nowait", "uniform", "uniform"], rng)
+        if guard.timed_out("ffsp"):
+            break
+        recs = G.ffsp_episode(envs[key], [far, longrow, G._rand_rt(rng, 1, 2 * S_, 1, 4)], ["nowait", "uniform", "uniform"], rng,
+                              probe_pre_step=True)
+        res["ffsp_batches"].append(recs)
         for rec in recs:
             rec["kind"] = "batch"
         ctx.count("%s_ffsp_batches_with_durations_beyond_the_makespan_on_unused_cells" % prefix)
@@ -689,7 +902,11 @@ def sched_streams(ctx, rng, torch, scale, coll, prefix):
         run_time = [G._rand_rt(rng, J, S_ * M, lo, lo + rng.choice([1, 3, 6])) for _ in range(B)]
         if B > 1 and rng.random() < 0.7:
             run_time[-1] = [[x * 3 + 2 for x in r] for r in run_time[-1]]
-        recs = G.ffsp_episode(env, run_time, [rng.choice(["uniform", "wait", "nowait", "first", "lastjob"]) for _ in range(B)], rng)
+        if guard.timed_out("ffsp"):      # env.step / reset did not return (reported by ffsp_py_c02): FFSP is abandoned
+            break
+        recs = G.ffsp_episode(env, run_time, [rng.choice(["uniform", "wait", "nowait", "first", "lastjob"]) for _ in range(B)], rng,
+                              probe_pre_step=True)
+        res["ffsp_batches"].append(recs)
         for rec in recs:
             rec["kind"] = "batch"
         fds = [r["first_done"] for r in recs]
@@ -697,12 +914,19 @@ def sched_streams(ctx, rng, torch, scale, coll, prefix):
             ctx.count("%s_ffsp_batches_rows_finish_at_different_steps" % prefix)
         ctx.count("%s_ffsp_batches" % prefix)
         res["ffsp"] += ffsp_py_c02(recs, coll)
+    # ---- FFSP: batches on which env.pre_step is probed with rows at different stages (own generator)
+    for recs in G.ffsp_mixed_stage_batches(ctx.seed + len(prefix)):
+        res["ffsp_batches"].append(recs)
+        ctx.count("%s_ffsp_batches_for_the_pre_step_guard_with_rows_at_different_stages" % prefix)
+        res["ffsp"] += ffsp_py_c02(recs, coll)
     # ---- SMTWTP
     from rl4co.envs import SMTWTPEnv
     for rep in range(scale + 1):
         n = rng.randint(3, 7)
         B = rng.randint(1, 4)
         env = SMTWTPEnv(generator_params=dict(num_job=n), check_solution=False)
+        if guard.timed_out("smtwtp"):
+            break
         recs = G.smtwtp_batch(env, smtwtp_rows(rng, n, B), [None] * B, rng)
         ctx.count("%s_smtwtp_batches" % prefix)
         res["smtwtp"] += smtwtp_py_c02(recs, coll)
